@@ -112,16 +112,22 @@ impl<'a> Sess<'a> {
                 Some(x) => sk.update(x),
                 None => sk.verif_row_col_update((row << 6) | col),
             }
-            // every state must be serializable (C17): the image itself is looked at in the checkpoints
+            // every state must be serializable (C17) and its image readable again, to the same bytes (C11): the
+            // length of the compressed streams depends on every coupon (the image itself is looked at in the checkpoints)
+            let mut rtok = None;
             if sk.lg_k() <= 10 {
-                let _ = sk.serialize();
+                let b = sk.serialize();
+                rtok = Some(matches!(CpcSketch::deserialize(&b), Ok(d) if d.serialize() == b));
             }
-            sk
+            (sk, rtok)
         }));
         match r {
-            Ok(sk) => {
+            Ok((sk, rtok)) => {
                 let st = sk.verif_state();
                 let mut v = json!({"op":"PUpd","id":id,"rc":[row,col],"st":sc(&st),"o":obs(&sk)});
+                if let Some(ok) = rtok {
+                    v["rtok"] = json!(ok);
+                }
                 // the writer's table selectors after every update (the thresholds are narrow bands of C)
                 if st.lg_k <= 14 && st.num_coupons > 0 {
                     let (k, c) = (1u64 << st.lg_k, st.num_coupons as u64);
